@@ -566,6 +566,8 @@ def arena_std(g):
             d['text'] = line_text(lines[d['line']].v)
         if n.vn == 'Raw':
             d['content'] = s.get('content')
+        if n.vn == 'Reference':
+            d['ref_text'] = s.get('text')
         out.append(d)
     return out
 
